@@ -30,6 +30,7 @@ const (
 	ErrMismatchParamLengthError = 51
 	ErrMostParamsError          = 52
 	ErrExactParamsError         = 53
+	ErrCallDepthExceeded        = 54
 	// module error
 	ErrModuleNotFound           = 60
 	ErrImportSameModule         = 61
@@ -173,6 +174,15 @@ func MismatchParamLengthError(expect int, got int) *RuntimeError {
 		Code:    ErrMismatchParamLengthError,
 		Message: fmt.Sprintf("此方法定义了%d个参数，而实际输入%d个参数", expect, got),
 		Extra:   []int{expect, got},
+	}
+}
+
+// CallDepthExceeded - too many nested calls (runaway recursion)
+func CallDepthExceeded(limit int) *RuntimeError {
+	return &RuntimeError{
+		Code:    ErrCallDepthExceeded,
+		Message: fmt.Sprintf("方法调用的嵌套层数超过了上限（%d 层）", limit),
+		Extra:   limit,
 	}
 }
 
